@@ -4,7 +4,7 @@
 From Coq Require Import ZArith List Bool Reals.
 From FT.lib Require Import Num Arr ArrLemmas Lower.
 From FT.gen Require Import Fteik2d Fteik3d.
-From FT.proofs Require Import Sweep2dProofs Sweep3dProofs.
+From FT.proofs Require Import Sweep2dProofs Sweep3dProofs SweepDargs.
 Import ListNotations.
 Open Scope Z_scope.
 
@@ -66,6 +66,22 @@ Theorem C04_fixed_point_edges_3d_R :
      (Rabs (get 0%R tt [i; j; (c + 1)%Z] - get 0%R tt [i; j; c]) <= dy * Sweep3dProofs.smin_yedge nz nx slow i j c)%R).
 Proof. exact Sweep3dProofs.sweep3d_fixed_edges_R. Qed.
 
+(* the passes hand the node update the documented spacing constants and depend on the spacings only through them *)
+Theorem C04_sweep3d_constants :
+  forall (T : Type) (H : Num T),
+  exists F : T * T * T * T * T * T * T * T * T * T -> arr T -> arr Z -> arr T -> Z -> Z -> Z -> bool -> arr T * arr Z,
+  forall tt ttsgn slow dz dx dy nz nx ny grad,
+    sweep3d tt ttsgn slow dz dx dy nz nx ny grad = F (dargs3 dz dx dy) tt ttsgn slow nz nx ny grad.
+Proof. exact @sweep3d_through_dargs3. Qed.
+Theorem C04_sweep2d_constants :
+  forall (T : Type) (H : Num T),
+  exists F : T * T * T * T * T * T -> arr T -> arr Z -> arr T -> T -> T -> T -> T -> T -> Z -> Z -> bool -> arr T * arr Z,
+  forall tt ttsgn slow dz dx zsi xsi zsa xsa vzero nz nx grad,
+    sweep2d tt ttsgn slow dz dx zsi xsi zsa xsa vzero nz nx grad = F (dargs2 dz dx) tt ttsgn slow zsi xsi zsa xsa vzero nz nx grad.
+Proof. exact @sweep2d_through_dargs2. Qed.
+
+Print Assumptions C04_sweep3d_constants.
+Print Assumptions C04_sweep2d_constants.
 Print Assumptions C04_fixed_point_edges_2d.
 Print Assumptions C04_fixed_point_edges_2d_R.
 Print Assumptions C04_fixed_point_edges_3d_R.
